@@ -155,6 +155,15 @@ class Parser:
         return self._action(OpCode.POWER)
 
     def _action(self, op_code) -> bool:
+        # This can be a command inside the begin/end block of a matrix "set"
+        # that is still being compiled and needs its own op-code afterwards.
+        outer_op_code = self._op_code
+        try:
+            return self._inner_action(op_code)
+        finally:
+            self._op_code = outer_op_code
+
+    def _inner_action(self, op_code) -> bool:
         action_token = self._current_token.token_type
         self._op_code = op_code
         if not (self._context.in_matrix() or action_token is TokenTypes.STAGE):
